@@ -165,12 +165,82 @@ def clf_group(name, seed, geom, pattern, encs):
                          "encodings": [e[0] for e in encs], "X": X.tolist(), "y_abstract": y_abs.tolist()}}
 
 
+def stream_makers():
+    from skactiveml import stream as st
+
+    def plain(cls, **kw):
+        return lambda classes, seed: cls(budget=0.5, random_state=seed, **kw)
+
+    def with_classes(cls, **kw):
+        return lambda classes, seed: cls(classes=list(classes), budget=0.5, random_state=seed, **kw)
+
+    return {
+        "FixedUncertainty": with_classes(st.FixedUncertainty),
+        "VariableUncertainty": plain(st.VariableUncertainty),
+        "RandomVariableUncertainty": plain(st.RandomVariableUncertainty),
+        "Split": plain(st.Split),
+        "StreamProbabilisticAL": plain(st.StreamProbabilisticAL),
+        "StreamProbabilisticAL(rbf)": plain(st.StreamProbabilisticAL, metric="rbf"),
+        "StreamDensityBasedAL": plain(st.StreamDensityBasedAL, window_size=5),
+        "CognitiveDualQueryStrategyVarUn": plain(st.CognitiveDualQueryStrategyVarUn, cognition_window_size=4,
+                                                 force_full_budget=True),
+        "CognitiveDualQueryStrategyFixUn": with_classes(st.CognitiveDualQueryStrategyFixUn, cognition_window_size=4,
+                                                        force_full_budget=True),
+    }
+
+
+def stream_group(name, seed, encs):
+    """one stream (3 chunks of 4 candidates, query + update) per encoding; the classifier and, where the
+    strategy has one, its `classes` parameter carry the encoding"""
+    from skactiveml.classifier import ParzenWindowClassifier
+
+    rng = np.random.RandomState(seed)
+    X0 = rng.randint(0, 6, size=(10, 1)).astype(float)
+    y_abs = np.where(rng.rand(10) < 0.3, -1, (X0[:, 0] > 2).astype(int))
+    stream = rng.randint(0, 6, size=(12, 1)).astype(float)
+    obs = []
+    try:
+        for enc in encs:
+            ename, classes, ml, dt = enc
+            clf = ParzenWindowClassifier(classes=list(classes), missing_label=ml, random_state=seed,
+                                         metric_dict={"gamma": 0.4})
+            y0 = encode(y_abs, enc)
+            clf.fit(X0, y0)
+            qs = STREAMS[name](classes, seed)
+            vals = []
+            np.random.seed(5)
+            for step in range(3):
+                cand = stream[4 * step:4 * step + 4]
+                with warnings.catch_warnings():
+                    warnings.simplefilter("ignore")
+                    q, u = qs.query(cand.copy(), clf=clf, X=X0, y=y0, return_utilities=True)
+                    qs.update(cand.copy(), q, budget_manager_param_dict={"utilities": np.asarray(u)})
+                u = np.asarray(u, dtype=float)
+                qset = set(int(i) for i in np.asarray(q))
+                vals += [[step * 100 + i + 1, u[i]] for i in range(len(u))]
+                vals += [[5000 + step * 100 + i + 1, 1000.0 * (i in qset)] for i in range(len(cand))]
+            obs.append((ename, vals))
+        finite = [abs(v) for o in obs for k, v in o[1] if k < 5000 and np.isfinite(v)]
+        scale = max(max(finite), 1e-6) if finite else 1.0
+        events = [{"ev": "Obs", "name": n_, "vals": [[k, _enc(v, scale) if k < 5000 else int(v)] for k, v in vals],
+                   "sel": 0, "samekeys": True, "cmpsel": False} for n_, vals in obs]
+    except Exception as ex:
+        events = [{"ev": "Raised", "exc": "%s: %s" % (type(ex).__name__, str(ex)[:160]),
+                   "encoding": encs[len(obs)][0] if len(obs) < len(encs) else "-"}]
+    return {"id": "stream:%s/seed%d" % (name, seed), "band": BAND, "events": events,
+            "concrete": {"subject": "stream:" + name, "seed": seed, "encodings": [e[0] for e in encs],
+                         "y_abstract": y_abs.tolist()}}
+
+
 CLFS = {}
+STREAMS = {}
 
 
 def _job(arg):
     if arg[0] == "pool":
         return pool_group(*arg[1:])
+    if arg[0] == "stream":
+        return stream_group(*arg[1:])
     return clf_group(*arg[1:])
 
 
@@ -191,6 +261,7 @@ def main(tier="quick", seed=0):
     # dictionaries): helper models built inside a strategy must receive the configured sentinel too
     ENTRIES.update({e.name: e for e in zoo.entries() + c05.extra_entries() if not zoo.is_regression(e)})
     CLFS.update(clf_makers())
+    STREAMS.update(stream_makers())
     chk.model_check("MC_Encoding", "MC_Encoding.cfg")
     scenarios = [s for s in chk.generate("PoolGen", "PoolGen.cfg") if s["n"] >= 3 and s["mode"] != "idx-any"]
     encs_all = ENCODINGS
@@ -207,6 +278,9 @@ def main(tier="quick", seed=0):
     for name in sorted(CLFS):
         for n_ in range(27 if quick else 270):
             jobs.append(("clf", name, int(rng.integers(0, 1000)), geoms[n_ % 3], pats[(n_ // 3) % 3], encs_all))
+    for name in sorted(STREAMS):
+        for n_ in range(10 if quick else 100):
+            jobs.append(("stream", name, int(rng.integers(0, 1000)), encs_all))
     traces = pmap(_job, jobs, chunksize=2)
     chk.count(sum(len(t["events"]) for t in traces))
     for t in traces:
@@ -216,8 +290,8 @@ def main(tier="quick", seed=0):
     chk.rule = ("one trace = one abstract scenario presented under 4-7 encodings (class renaming x missing-label "
                 "sentinel x dtype: float/NaN, int/-1, 10-20/-1, 10.0-20.0/NaN, str/'unlabeled', object/None, "
                 "negative ints/99) for %d classification strategy configurations on PoolGen scenarios and %d "
-                "classifiers on seeded data (no labels / one class / both classes); evaluations = observations"
-                % (len(ENTRIES), len(CLFS)))
+                "classifiers on seeded data (no labels / one class / both classes) and %d stream strategy configurations "
+                "(3 chunks of query + update each); evaluations = observations" % (len(ENTRIES), len(CLFS), len(STREAMS)))
     chk.validate("EquivTrace", traces, key_of=finding_key, describe=lambda t: t["concrete"])
     chk.assumptions = ["only combinations accepted by check_missing_label are used (numeric sentinels with numeric "
                        "labels, string sentinel with string labels, None with object labels)",
